@@ -118,6 +118,9 @@ STATIC = [
     # dynamic-but-textual mistakes: reported as parsing errors as soon as one record is evaluated, nothing written
     ('two-unnest', 'select unnest([a1, a2]), unnest([1, 2])', None, False, 'RbqlParsingError+', 'Only one UNNEST is allowed per query'),
     ('agg-in-expr', 'select MAX(a1) / 2', None, False, 'RbqlParsingError+', 'Usage of RBQL aggregation functions inside Python expressions is not allowed'),
+    ('distinct-count+agg', 'select distinct count a1, count(*) group by a1', None, False, 'RbqlParsingError+', 'keywords are not allowed in aggregate queries'),
+    ('distinct+agg', 'select distinct a2, MAX(a1) group by a2', None, False, 'RbqlParsingError+', 'keywords are not allowed in aggregate queries'),
+    ('distinct-count+agg-nogroup', 'select distinct count SUM(a1)', None, False, 'RbqlParsingError+', 'keywords are not allowed in aggregate queries'),
     ('agg+orderby', 'select MAX(a1) order by a2', None, False, 'RbqlParsingError+', '"ORDER BY", "UPDATE" and "DISTINCT" keywords are not allowed in aggregate queries'),
     ('agg-count-mismatch', 'select MAX(a1), [MIN(a2)]', None, False, 'RbqlParsingError+', 'Usage of RBQL aggregation functions inside Python expressions is not allowed'),
 ]
@@ -182,7 +185,7 @@ return (got, ('ok', ew))
 ''' % ', '.join(exprs))
     imports = 'from vf import csvh\nfrom vf.refmodel import csvref\nDLM_IN = %r\nPOL_IN = %r\nENC = %r\nDLM_OUT = %r\nPOL_OUT = %r\nQUERY = %r\n' % (dlm_in, pol_in, enc, dlm_out, pol_out, query)
     src = harness(imports, params, pre, body)
-    return Obl('csvwarn[%s>%s,%s,lines=%s]' % (pol_in, pol_out, enc, '+'.join(map(str, lens))), src, timeout=timeout,
+    return Obl('csvwarn[%s>%s,%s,%s,lines=%s]' % (pol_in, pol_out, enc, query[7:], '+'.join(map(str, lens))), src, timeout=timeout,
                meta={'query': query, 'bounds': 'every CSV text of %d lines with lengths %s (no CR/LF inside a line)' % (len(lens), lens)})
 
 
@@ -206,7 +209,8 @@ def obligations(tier, seed):
                 continue
             obs.append(_static_obl(spec, shape, 120 if quick else 600))
     cfgs = [(',', 'quoted', 'utf-8', '\t', 'simple', 'select a1, a2'), (',', 'quoted_rfc', None, ',', 'quoted', 'select a1, a2'),
-            ('\t', 'simple', 'utf-8', ',', 'simple', 'select a1, a2'), (',', 'quoted', 'latin-1', ';', 'simple', 'select a1, a2')]
+            ('\t', 'simple', 'utf-8', ',', 'simple', 'select a1, a2'), (',', 'quoted', 'latin-1', ';', 'simple', 'select a1, a2'),
+            (',', 'quoted', None, ';', 'simple', 'select [a1, a2]'), (',', 'simple', None, ',', 'quoted', 'select NR, [a2, a1]')]
     for ci, cfg in enumerate(cfgs):
         for lens in ([(2, 1), (1, 2), (3,)] if quick else [(2, 1), (1, 2), (3,), (2, 2), (3, 1), (1, 3), (4,), (1, 1, 1), (3, 2)]):
             obs.append(_csv_warn_obl(cfg, lens, 200 if quick else 1200))
